@@ -113,6 +113,45 @@ func genC16(r *core.Rand, p *core.Plan) {
 	}
 	p.Ops = append(p.Ops, core.Op{K: "createwallet", A: []int64{unlock, bdayBack, interrupts, int64(r.Range(1, 400)), int64(r.Intn(2))}})
 	p.Ops = append(p.Ops, core.Op{K: "sync"})
+	// Resumed recovery: the wallet is stopped, the chain grows (payments keep
+	// obeying the look-ahead condition relative to everything paid so far),
+	// and the wallet is opened again with the same recovery window.
+	for phase := 0; phase < 2 && r.Chance(1, 2) && nblocks < 1000; phase++ {
+		p.Ops = append(p.Ops, core.Op{K: "stop"})
+		more := r.Range(1, 8)
+		// favour one branch so that "change only" scopes and long runs on a
+		// single branch occur
+		fav := bk{r.Intn(4), r.Intn(2)}
+		for blk := 0; blk < more; blk++ {
+			inBlock := map[bk]int64{}
+			for k := 0; k < r.Range(1, 3); k++ {
+				key := bk{r.Intn(4), r.Intn(2)}
+				if r.Chance(2, 3) {
+					key = fav
+				}
+				hi := highest[key]
+				idx := hi + W
+				if r.Chance(1, 3) {
+					idx = int64(r.Range(0, int(hi+W)))
+				}
+				p.Ops = append(p.Ops, core.Op{K: "pay", A: []int64{int64(key.s), int64(key.b), idx, int64(r.Range(1, 900)) * 1e5}})
+				if idx > highest[key] && idx > inBlock[key] {
+					inBlock[key] = idx
+				}
+			}
+			if r.Chance(1, 3) {
+				p.Ops = append(p.Ops, core.Op{K: "spendcoin", A: []int64{int64(r.Intn(64)), int64(r.Range(-1, 3)), int64(r.Intn(2))}})
+			}
+			p.Ops = append(p.Ops, core.Op{K: "mine", A: []int64{1, 100, -1, int64(r.Range(1, 1200)), int64(r.Uint64() >> 1)}})
+			for k, v := range inBlock {
+				if v > highest[k] {
+					highest[k] = v
+				}
+			}
+		}
+		p.Ops = append(p.Ops, core.Op{K: "start"})
+		p.Ops = append(p.Ops, core.Op{K: "sync"})
+	}
 }
 
 type paidRec struct {
@@ -145,8 +184,8 @@ func (x *world) harnessAddr(scope waddrmgr.KeyScope, branch, index uint32) (btcu
 // been shrunk).
 func (rs *runState) pay(step int, op core.Op) {
 	x := rs.x
-	if x.w != nil {
-		return // only before the wallet is restored
+	if x.w != nil && x.running {
+		return // only while no wallet is attached (before the restore, or while it is stopped)
 	}
 	s := scopes[int(uint64(op.Arg(0))%uint64(len(scopes)))]
 	br := uint32(uint64(op.Arg(1)) % 2)
@@ -194,7 +233,7 @@ func (rs *runState) pay(step int, op core.Op) {
 // goes outside or to a wallet address inside the window.
 func (rs *runState) spendcoin(step int, op core.Op) {
 	x := rs.x
-	if x.w != nil {
+	if x.w != nil && x.running {
 		return
 	}
 	coins := x.coins()
